@@ -74,7 +74,8 @@ static inline int next_tag(int k) {
     int __tag, __tag_o, __next_tag;
 reread:
     __tag = __tag_o = __VAL_NEXT_TAG;
-    if( __tag > (MAX_MPI_TAG-k) ) {
+    /* Only the lower half of the tag space is handed out here: GET uses the upper half (see mpi_no_thread_get) */
+    if( __tag > ((MAX_MPI_TAG / 2) - k) ) {
         PARSEC_DEBUG_VERBOSE(20, parsec_comm_output_stream, "rank %d tag rollover: min %d < %d (+%d) < max %d", parsec_debug_rank,
                 0, __tag, k, MAX_MPI_TAG);
         __tag = 0;
@@ -1169,7 +1170,10 @@ mpi_no_thread_get(parsec_comm_engine_t *ce,
     mpi_funnelled_callback_t *cb;
     MPI_Request *request;
 
-    int tag = next_tag(1);
+    /* The data of a GET travels from the remote peer to us, as does the data of a PUT issued by that peer: each
+     * side draws its tags from its own counter, so the two must not share a tag range or the transfers can match
+     * each other's receives. PUT uses [0, MAX_MPI_TAG/2], GET the range above it. */
+    int tag = next_tag(1) + (MAX_MPI_TAG / 2) + 1;
 
     mpi_funnelled_mem_reg_handle_t *source_memory_handle = (mpi_funnelled_mem_reg_handle_t *) lreg;
     mpi_funnelled_mem_reg_handle_t *remote_memory_handle = (mpi_funnelled_mem_reg_handle_t *) rreg;
